@@ -36,6 +36,8 @@ type Config struct {
 	MaxSteps       int // total instructions executed over all paths (default 20 million)
 	// GlobalLen: known lengths of package-level slices (from their literal initialisers).
 	GlobalLen map[string]int64
+	// ParamAlias: parameter index -> index of the parameter it denotes the same object as (ALIAS rule).
+	ParamAlias map[int]int
 	// SymLoops: loops of the target function itself are not unrolled; each is
 	// cut at its header: entering it from outside replaces the loop-carried
 	// values by symbols φ<block>.<k> (recorded as events with their initial
@@ -535,9 +537,13 @@ func Walk(cfg *Config, fn *ssa.Function) []*Path {
 		}
 	}
 	for i, prm := range fn.Params {
-		name := prm.Name()
+		src := i
+		if j, ok := cfg.ParamAlias[i]; ok {
+			src = j // the two parameters denote one object
+		}
+		name := fn.Params[src].Name()
 		if alias != nil {
-			name = alias[i]
+			name = alias[src]
 		}
 		fr.env[prm] = paramTerm(prm, name)
 	}
